@@ -286,48 +286,60 @@ def r4_signs(ctx, repo):
     lp = loops[0]
     cv = lp.target.id
     fake = ast.FunctionDef(name="b", args=init.args, body=lp.body, decorator_list=[], returns=None, type_comment=None, lineno=lp.lineno, col_offset=0)
+    # finite case split over the cost entry: no criteria / minimize / maximize / any other text
+    CASES = (("absent", {}, 1), ("minimize", {"criteria": "minimize"}, 1), ("maximize", {"criteria": "maximize"}, -1), ("other", {"criteria": "<other>"}, -1))
+    from ..astutil import ceval, NotEvaluable
     table = []
-    bad = None
-    for p in Enumerator(loop_counts=(0, 1)).function_paths(fake):
-        has = is_min = is_max = None
-        for e in p.events:
-            if e.kind == "guard":
-                t = text(e.node)
-                if isinstance(e.node, ast.Compare) and isinstance(e.node.ops[0], ast.In) and "'criteria'" in t:
-                    has = e.val
-                elif isinstance(e.node, ast.Compare) and isinstance(e.node.ops[0], ast.NotIn) and "'criteria'" in t:
-                    has = not e.val
-                elif isinstance(e.node, ast.Compare) and isinstance(e.node.ops[0], (ast.Eq, ast.NotEq)) and "'criteria'" in t:
-                    v = e.val if isinstance(e.node.ops[0], ast.Eq) else not e.val
-                    if "'minimize'" in t:
-                        is_min = v
-                    elif "'maximize'" in t:
-                        is_max = v
-        apps = [c.args[0] for e in p.events if e.kind == "stmt" for c in calls_in(e.node)
-                if method_call(c) and access_path(method_call(c)[0]) == selfn + ".signs" and method_call(c)[1] == "append"]
-        vals = []
-        for a in apps:
-            try:
-                from ..astutil import fold
-                vals.append(fold(a))
-            except ValueError:
-                vals.append(None)
-        if has is False:
-            want = 1
-        elif is_min is True:
-            want = 1
-        elif is_max is True or is_min is False:
-            want = -1
-        else:
-            want = None
-        table.append({"has_criteria": has, "minimize": is_min, "maximize": is_max, "appended": vals})
-        if len(vals) != 1 or (want is not None and vals[0] != want) or want is None:
-            bad = bad or (p, "criteria present=%s minimize=%s maximize=%s -> signs gets %s (expected one entry %s)" % (has, is_min, is_max, vals, want))
+    bad = unknown = None
+    paths = Enumerator(loop_counts=(0, 1)).function_paths(fake)
+    for cname_, cdict, want in CASES:
+        got = []
+        for p in paths:
+            pe = PathEnv(init, p.events)
+            feasible = True
+            for k_, e in enumerate(p.events):
+                if e.kind != "guard":
+                    continue
+                try:
+                    tv = bool(ceval(pe.expand_at(e.node, k_), {cv: cdict}))
+                except NotEvaluable as ex:
+                    if "raises" in str(ex):
+                        feasible = False       # the real program raises here: not a path of this case
+                        break
+                    unknown = unknown or "guard %s cannot be evaluated for a cost entry with %s criteria" % (text(e.node), cname_)
+                    feasible = None
+                    break
+                if tv != bool(e.val):
+                    feasible = False
+                    break
+            if feasible is not True:
+                continue
+            vals = []
+            for k_, e in enumerate(p.events):
+                if e.kind != "stmt":
+                    continue
+                for c in calls_in(e.node):
+                    if method_call(c) and access_path(method_call(c)[0]) == selfn + ".signs" and method_call(c)[1] == "append" and c.args:
+                        try:
+                            vals.append(ceval(pe.expand_at(c.args[0], k_), {cv: cdict}))
+                        except NotEvaluable:
+                            vals.append(None)
+            got.append(vals)
+        table.append({"criteria": cname_, "appended": got})
+        if not got:
+            unknown = unknown or "no path of the loop body is consistent with a cost entry with %s criteria" % cname_
+        for vals in got:
+            if None in vals:
+                unknown = unknown or "the appended sign is not evaluable for a cost entry with %s criteria" % cname_
+            elif vals != [want]:
+                bad = bad or "criteria %s -> signs gets %s (expected one entry %+d)" % (cname_, vals, want)
     ctx.extra["signs_table"] = table
     if bad:
-        ctx.violated("R4", C, where(mod, lp), bad[1])
+        ctx.violated("R4", C, where(mod, lp), bad)
+    elif unknown:
+        ctx.inconclusive("R4", C, where(mod, lp), unknown)
     else:
-        ctx.holds("R4", C, where(mod, lp), "minimize -> +1, other -> -1, absent -> +1; one sign per cost (%d table rows)" % len(table))
+        ctx.holds("R4", C, where(mod, lp), "minimize -> +1, other -> -1, absent -> +1; one sign per cost (4 cases of the cost entry)")
 
 
 def r5_bridges(ctx, repo):
